@@ -94,6 +94,15 @@ def b1(run, project, roles):
     run.ob("B1", sg is not None and norm(sg) == f"{t}._signed", "reader: signedness = tpm_type._signed",
            f"signed is `{norm(sg) if sg is not None else None}`", module=mod, node=R["call"], func=fn.name,
            construct="int.from_bytes signed")
+    # what is re-encoded is the event's value: it must be the typed value (a plain int has int.to_bytes' defaults:
+    # one byte, unsigned)
+    from .c04 import find_event_yield
+    for y, ev in find_event_yield(R["V"]):
+        tv = R["V"].resolve(ev.args[2], y) if len(ev.args) == 3 else None
+        okv = isinstance(tv, ast.Call) and norm(tv.func) == t
+        run.ob("B1", okv, f"event at L{y.lineno} carries the typed value (so to_bytes() knows width and signedness)",
+               f"the event carries `{norm(tv) if tv is not None else None}`: re-encoding it uses int.to_bytes' defaults (1 byte, unsigned) "
+               "instead of the declared width", module=mod, node=ev, func=fn.name, construct="event value class")
     # writer
     base = project.module(BASE)
     f = base.functions().get("_INT.to_bytes")
